@@ -838,6 +838,17 @@ orc_x86_compile (OrcCompiler *compiler)
   orc_x86_adjust_alignment (t, compiler);
 
   is_aligned = compiler->vars[align_var].is_aligned;
+  if (!is_aligned) {
+    int i;
+
+    /* The head region advances every array by the number of elements that
+     * aligns the alignment variable only: an alignment hint on any other
+     * array does not hold inside the main loop. */
+    for (i = ORC_VAR_D1; i <= ORC_VAR_S8; i++) {
+      if (i != align_var)
+        compiler->vars[i].is_aligned = FALSE;
+    }
+  }
   {
     orc_x86_emit_loop (compiler, 0, 0);
 
